@@ -174,6 +174,12 @@ def gen_case(rng, hist=False):
         # placeholders as far as the generator can tell (the oracle reads the real merged tree instead)
         ps = [p for p in ps if not any(w[0] == p[:len(w[0])] for w in writes)] + \
              [w[0] + q for w in writes for q in placeholder_paths(w[1])]
+    if not hist and rng.random() < 0.12:
+        # a last document whose ROOT is a deleting mapping, empty or not: it wipes whatever the earlier documents hold, their
+        # placeholders included ("a placeholder ... deleted by any later stage does not count") (seeded change S7-C14: an empty
+        # document was skipped as "nothing to merge", its !del with it)
+        docs.append({'raw': M([] if rng.random() < 0.6 else [('c', S(3))], kw={'del': True})})
+        actions.append('wipe')
     case = {'docs': docs, 'actions': sorted(set(actions))}
     if hist:
         for i in cuts:
@@ -399,7 +405,22 @@ class C14(MergeFamProp):
                 return d if d.startswith('KNOWN:') else f"history ({case['hist']}), construction after document {pt['after']}: {d}"
         return None
 
+    @staticmethod
+    def wiped(docs):
+        """True when the documents say by themselves that no placeholder can remain: the last document is a root-level deleting
+        mapping without placeholders, and nothing before it is protected by a priority tag"""
+        if len(docs) < 2:
+            return False
+        last = docs[-1]['raw']
+        if 'm' not in last or (last.get('kw') or {}).get('del') is not True or placeholder_paths(last):
+            return False
+        txt = json.dumps([d['raw'] for d in docs])
+        return '"prio"' not in txt and '"alias"' not in txt
+
     def oracle(self, case, io, ans):
+        if not case.get('hist') and self.wiped(plain_docs(case['docs'])) and io['cfg'].get('err') == 'required':
+            return (f"the last document is a deleting mapping at the root: it removes every placeholder of the earlier documents, yet the "
+                    f"config reports {io['cfg'].get('paths')}")
         d = self.rule(io['tree'], io['cfg'])
         if d is None:
             for pt in io.get('hist', []):
